@@ -131,13 +131,24 @@ pub fn current<C: Cursor>(c: &C) -> Option<Entry> {
 /// Run `prog` against the cursor and the reference, comparing after every call.  Returns
 /// (signature, message) of the first disagreement.
 pub fn compare_program<C: Cursor>(what: &str, c: &mut C, reference: &mut RefCursor, prog: &[CursorOp]) -> Result<(), (String, String)> {
+    compare_program_opt(what, c, reference, prog, false)
+}
+
+/// As `compare_program`; with `ignore_ts` the timestamps of the real cursor are not compared (the
+/// store assigns them), only keys and values.
+pub fn compare_program_opt<C: Cursor>(what: &str, c: &mut C, reference: &mut RefCursor, prog: &[CursorOp], ignore_ts: bool) -> Result<(), (String, String)> {
     for (i, op) in prog.iter().enumerate() {
         if let Err(e) = apply(c, op) {
             return Err((format!("{what}:error"), format!("{what}: call #{i} {op:?} returned an error: {}", vcore::truncate(&format!("{e:?}"), 300))));
         }
         reference.apply(op);
-        let got = current(c);
+        let mut got = current(c);
         let want = reference.current().cloned();
+        if ignore_ts {
+            if let (Some(g), Some(w)) = (got.as_mut(), want.as_ref()) {
+                g.1 = w.1;
+            }
+        }
         if got != want {
             let opname = match op {
                 CursorOp::Seek(_) => "seek",
@@ -152,7 +163,7 @@ pub fn compare_program<C: Cursor>(what: &str, c: &mut C, reference: &mut RefCurs
             ));
         }
         // key()/value() agree with key_value()
-        let k = c.key().map(|k| (k.key.to_vec(), k.timestamp));
+        let k = c.key().map(|k| (k.key.to_vec(), if ignore_ts { want.as_ref().map(|w| w.1).unwrap_or(0) } else { k.timestamp }));
         if k != want.as_ref().map(|e| (e.0.clone(), e.1)) {
             return Err((format!("{what}:key-inconsistent"), format!("{what}: key() disagrees with key_value() after call #{i} {op:?}")));
         }
